@@ -377,6 +377,57 @@ func runC15(rc *RC) {
 			}
 		}
 	}
+	// phase 5: a packet for the session that was closed is refused like one for an unknown session
+	if closer != 2 && !wrap && rdB.done && rdB.eof && ch.Chance("workload", 1, 2) {
+		n := 0
+		for _, e := range ParseWire(p.CA.Out().Tap).Elems {
+			for _, t := range e.Toks {
+				if st, ok := t.(xml.StartElement); ok && st.Name.Local == "data" {
+					n++
+				}
+			}
+		}
+		before := len(rdB.got)
+		var cond string
+		var ierr error
+		it := rc.Spawn("injector-closed", func() {
+			ictx, c2 := context.WithTimeout(ctx, 20*time.Second)
+			defer c2()
+			r, err := p.A.SendIQ(ictx, stanza.IQ{Type: stanza.SetIQ, To: bJID, ID: "inj2"}.Wrap(xmlstream.Wrap(xmlstream.Token(xml.CharData("QUJD")),
+				xml.StartElement{Name: xml.Name{Space: ibb.NS, Local: "data"}, Attr: []xml.Attr{{Name: xml.Name{Local: "sid"}, Value: sid}, {Name: xml.Name{Local: "seq"}, Value: strconv.Itoa(n % 65536)}}})))
+			if err != nil {
+				ierr = err
+				return
+			}
+			defer r.Close()
+			tok, _ := r.Token()
+			st, _ := tok.(xml.StartElement)
+			if (Elem{Start: st}).Attr("type") != "error" {
+				cond = "result"
+				return
+			}
+			for {
+				tok, err := r.Token()
+				if err != nil {
+					return
+				}
+				if s2, ok := tok.(xml.StartElement); ok && s2.Name.Space == "urn:ietf:params:xml:ns:xmpp-stanzas" {
+					cond = s2.Name.Local
+					return
+				}
+			}
+		})
+		rc.S.Run(func() bool { return it.Done() }, 200000, time.Minute)
+		rc.Fire("inject-closed-sid")
+		rc.Evals["C15.c4"]++
+		who := map[int]string{0: "opener", 1: "acceptor"}[closer]
+		if !it.Done() || ierr != nil || cond != "item-not-found" {
+			rc.Failf("C15.c4", "bad-packet-not-refused:closed-sid:closed-by-"+who, "data packet for the session the %s closed: want stanza error item-not-found, got %q (err %v, returned %v)", who, cond, ierr, it.Done())
+		}
+		if len(rdB.got) != before {
+			rc.Failf("C15.c4", "bad-packet-delivered:closed-sid", "a packet for the closed session reached the reader")
+		}
+	}
 	finishC15(rc, p, &phase)
 }
 
@@ -446,7 +497,7 @@ func checkIBBWire(rc *RC, tap []byte, sid string, atLeast, written []byte, label
 	next := 0
 	rc.Evals["C15.c3"]++
 	for _, e := range w.Elems {
-		if e.Attr("id") == "inj1" {
+		if e.Attr("id") == "inj1" || e.Attr("id") == "inj2" {
 			continue
 		}
 		for i, t := range e.Toks {
